@@ -1,48 +1,59 @@
 (** Model of liteapi/pool/conn_pool.go + connection.go — part (b): the wait-list
-    protocol as a labelled transition system.  Definitions only.
+    protocol of the REPAIRED code as a labelled transition system.  Definitions only.
+    (The protocol before the repairs, with its three deadlocks: Proofs/PoolHistory.v.)
 
     Agents and what they do in the Go code:
 
-    * connection c (connection.Run -> SetMasterHead):
-        c.mu.Lock(); if head.Seqno > c.masterHead.Seqno { c.masterHead = head;
-        c.masterHeadUpdatedCh <- {head, c} }; c.mu.Unlock()
-      The send into the shared channel (capacity 10) happens WHILE c.mu IS HELD:
-      pc [CPub h] = "holds c.mu, head already stored, blocked in / about to do the send".
-      MasterHead() takes c.mu.RLock(), so it blocks while the connection is in [CPub].
+    * callers of connection.SetMasterHead(head) (connection.Run, and user goroutines
+      through MasterchainInfoClient):
+        c.mu.Lock(); if head.Seqno <= c.masterHead.Seqno { c.mu.Unlock(); return }
+        c.masterHead = head; c.mu.Unlock();  c.masterHeadUpdatedCh <- {head, c}
+      The critical section contains no blocking operation: it is ONE step [LSetHead].
+      The send into the shared channel (capacity 10) happens AFTER c.mu is released:
+      the caller then sits in [pend] until the send completes ([LPublish]); several
+      callers of the same connection may be pending at once, and their sends may
+      complete in any order.  MasterHead() (c.mu.RLock) therefore never blocks.
 
     * the pool's Run loop (one goroutine): select { tick: updateBest() ;
         update := <-masterHeadUpdatedCh: notifySubscribers(update) }
       - notifySubscribers: p.mu.RLock(); if bestConn != nil && update.Conn.ID() == bestConn.ID()
-        { for _, ch := range p.waitList { ch <- update.Head } }; p.mu.RUnlock()
-        The sends are BLOCKING sends into capacity-1 channels, performed WHILE p.mu IS
-        READ-LOCKED; the iteration order of the Go map is unspecified ([LRLock order]).
-      - updateBest: p.mu.Lock(); for every connection c.MasterHead() (c.mu.RLock), then
-        the selection rule (Model/Pool.v); p.mu.Unlock().  IsOK/RTT are inputs from the
-        network, so the new choice is a nondeterministic label here.
+        { for _, ch := range p.waitList { notifySubscriber(ch, update.Head) } }; p.mu.RUnlock()
+        notifySubscriber is three non-blocking selects: send; if the channel (capacity 1)
+        was full, take the pending head out and keep the one with the larger seqno;
+        send.  Run is the only sender on a registered channel and the waiter can only
+        empty it, so the last send always succeeds and the whole is ONE step [LSend]
+        whose effect is  ch := newer(ch, head)  (if the waiter receives between the
+        selects, that is the interleaving "LRecv then LSend").  The iteration order of
+        the Go map is unspecified ([LRLock order]).
+      - updateBest: p.mu.Lock(); MasterHead() of every connection; the selection rule
+        (Model/Pool.v) on those heads and on IsOK()/AverageRoundTrip(), which are inputs
+        from the network ([LUpdDone obs]); p.mu.Unlock().  The heads are read one by one
+        in the code; the model reads them at once (the comparison is monotone in a
+        connection's head, Proofs/PoolP.v current_go_mono).
 
     * waiter w (WaitMasterchainSeqno(ctx, tgt w, timeout); BestMasterchainClient's
-      wait is the instance tgt = 1):
+      wait is the instance tgt = 1 without timeout):
         subscribe:   ch := make(chan, 1); p.mu.Lock(); head := p.bestConn.MasterHead();
                      if head.Seqno >= seqno { ch <- head; id = 0 } else { waitListID++;
                      waitList[waitListID] = ch }; p.mu.Unlock()
-        loop:        select { ctx.Done / time.After -> return err ; head := <-ch ->
+        loop:        timer := time.NewTimer(timeout)   -- once, before the loop
+                     select { ctx.Done / timer.C -> return err ; head := <-ch ->
                      if head.Seqno >= seqno return nil }
         on return:   deferred unsubscribe: p.mu.Lock(); delete(waitList, id); p.mu.Unlock()
 
-    Reductions (sound for safety/deadlock analysis because the merged code has no
-    blocking operation and touches no shared state in between): unsubscribe is one
-    step (Lock; delete; Unlock); receive + comparison is one step; updateBest's
-    second pass over the connections (MasterHead of the alive ones inside the find
-    loops) is the same kind of step as the first pass and is not repeated; the other
-    users of p.mu (bestConnection, ConnectionsNumber: RLock, read, RUnlock; Status:
-    Lock, reads of c.mu-protected fields as in updateBest) are not agents here.
-    Seqnos are plain N (the uint32 comparison [>]/[>=] agrees on values < 2^32). *)
-From Coq Require Import List NArith Bool Arith.
+    Reductions (sound because the merged code has no blocking operation and touches
+    no shared state in between): unsubscribe is one step (Lock; delete; Unlock);
+    receive + comparison is one step; the other users of p.mu (bestConnection,
+    ConnectionsNumber: RLock, read, RUnlock; Status, addConnection: Lock, non-blocking
+    body, Unlock) are not agents here.  Go's RWMutex prefers a waiting writer over new
+    readers; that only removes interleavings, so every invariant proved here holds.
+    Seqnos are plain N (the uint32 comparisons [>]/[>=] agree on values < 2^32). *)
+From Coq Require Import List NArith ZArith Bool Arith.
+From Tongo Require Import Model.Pool.
 Import ListNotations.
 
 Definition msg := (nat * N)%type.          (* masterHeadUpdated: (Conn.ID(), Head.Seqno) *)
 Inductive agent := ARun | AW (w : nat).
-Inductive conn_pc := CIdle | CPub (h : N).
 Inductive wres := ROk | RTimeout | RCancel.
 Inductive wait_pc :=
 | WNew                      (* before subscribe: wants p.mu.Lock *)
@@ -50,18 +61,20 @@ Inductive wait_pc :=
 | WWait                     (* in the select loop *)
 | WUnsub (r : wres)         (* left the loop with result r; deferred unsubscribe wants p.mu.Lock *)
 | WDone (r : wres)          (* returned r *)
-| WPanicked.                (* nil bestConn dereferenced in subscribe *)
+| WPanicked.                (* nil bestConn dereferenced in subscribe (pool without connections) *)
 Inductive run_pc :=
-| RIdle                               (* in select *)
-| RWantR (u : msg)                    (* received u from masterHeadUpdatedCh, calling p.mu.RLock *)
-| RNotify (u : msg) (rem : list nat)  (* holds RLock; channels (by waiter) still to be sent to *)
-| RUpd (k : nat).                     (* in updateBest, holds p.mu (write); next: conns[k].MasterHead() *)
+| RIdle                                       (* in select *)
+| RWantR (u : msg)                            (* received u from masterHeadUpdatedCh, calling p.mu.RLock *)
+| RNotify (u : msg) (matched : bool) (rem : list nat)
+                                              (* holds RLock; matched: u comes from bestConn;
+                                                 channels (by waiter) still to be sent to *)
+| RUpd.                                       (* in updateBest, holds p.mu (write) *)
 
 Definition upd_cap : nat := 10.            (* make(chan masterHeadUpdated, 10) *)
 
 Record state := mkS {
   head : nat -> N;
-  cpc : nat -> conn_pc;
+  pend : list msg;
   updq : list msg;
   best : option nat;
   readers : nat;
@@ -73,55 +86,66 @@ Record state := mkS {
   wid : nat -> N;
   wch : nat -> option msg;
   wgot : nat -> option msg;
+  woff : nat -> list msg;
   log : list msg
 }.
 
 Definition set_head (s : state) (v : nat -> N) : state :=
-  mkS v (cpc s) (updq s) (best s) (readers s) (writer s) (wl s) (next_id s) (rpc s) (wpc s) (wid s) (wch s) (wgot s) (log s).
-Definition set_cpc (s : state) (v : nat -> conn_pc) : state :=
-  mkS (head s) v (updq s) (best s) (readers s) (writer s) (wl s) (next_id s) (rpc s) (wpc s) (wid s) (wch s) (wgot s) (log s).
+  mkS v (pend s) (updq s) (best s) (readers s) (writer s) (wl s) (next_id s) (rpc s) (wpc s) (wid s) (wch s) (wgot s) (woff s) (log s).
+Definition set_pend (s : state) (v : list msg) : state :=
+  mkS (head s) v (updq s) (best s) (readers s) (writer s) (wl s) (next_id s) (rpc s) (wpc s) (wid s) (wch s) (wgot s) (woff s) (log s).
 Definition set_updq (s : state) (v : list msg) : state :=
-  mkS (head s) (cpc s) v (best s) (readers s) (writer s) (wl s) (next_id s) (rpc s) (wpc s) (wid s) (wch s) (wgot s) (log s).
+  mkS (head s) (pend s) v (best s) (readers s) (writer s) (wl s) (next_id s) (rpc s) (wpc s) (wid s) (wch s) (wgot s) (woff s) (log s).
 Definition set_best (s : state) (v : option nat) : state :=
-  mkS (head s) (cpc s) (updq s) v (readers s) (writer s) (wl s) (next_id s) (rpc s) (wpc s) (wid s) (wch s) (wgot s) (log s).
+  mkS (head s) (pend s) (updq s) v (readers s) (writer s) (wl s) (next_id s) (rpc s) (wpc s) (wid s) (wch s) (wgot s) (woff s) (log s).
 Definition set_readers (s : state) (v : nat) : state :=
-  mkS (head s) (cpc s) (updq s) (best s) v (writer s) (wl s) (next_id s) (rpc s) (wpc s) (wid s) (wch s) (wgot s) (log s).
+  mkS (head s) (pend s) (updq s) (best s) v (writer s) (wl s) (next_id s) (rpc s) (wpc s) (wid s) (wch s) (wgot s) (woff s) (log s).
 Definition set_writer (s : state) (v : option agent) : state :=
-  mkS (head s) (cpc s) (updq s) (best s) (readers s) v (wl s) (next_id s) (rpc s) (wpc s) (wid s) (wch s) (wgot s) (log s).
+  mkS (head s) (pend s) (updq s) (best s) (readers s) v (wl s) (next_id s) (rpc s) (wpc s) (wid s) (wch s) (wgot s) (woff s) (log s).
 Definition set_wl (s : state) (v : list (N * nat)) : state :=
-  mkS (head s) (cpc s) (updq s) (best s) (readers s) (writer s) v (next_id s) (rpc s) (wpc s) (wid s) (wch s) (wgot s) (log s).
+  mkS (head s) (pend s) (updq s) (best s) (readers s) (writer s) v (next_id s) (rpc s) (wpc s) (wid s) (wch s) (wgot s) (woff s) (log s).
 Definition set_next_id (s : state) (v : N) : state :=
-  mkS (head s) (cpc s) (updq s) (best s) (readers s) (writer s) (wl s) v (rpc s) (wpc s) (wid s) (wch s) (wgot s) (log s).
+  mkS (head s) (pend s) (updq s) (best s) (readers s) (writer s) (wl s) v (rpc s) (wpc s) (wid s) (wch s) (wgot s) (woff s) (log s).
 Definition set_rpc (s : state) (v : run_pc) : state :=
-  mkS (head s) (cpc s) (updq s) (best s) (readers s) (writer s) (wl s) (next_id s) v (wpc s) (wid s) (wch s) (wgot s) (log s).
+  mkS (head s) (pend s) (updq s) (best s) (readers s) (writer s) (wl s) (next_id s) v (wpc s) (wid s) (wch s) (wgot s) (woff s) (log s).
 Definition set_wpc (s : state) (v : nat -> wait_pc) : state :=
-  mkS (head s) (cpc s) (updq s) (best s) (readers s) (writer s) (wl s) (next_id s) (rpc s) v (wid s) (wch s) (wgot s) (log s).
+  mkS (head s) (pend s) (updq s) (best s) (readers s) (writer s) (wl s) (next_id s) (rpc s) v (wid s) (wch s) (wgot s) (woff s) (log s).
 Definition set_wid (s : state) (v : nat -> N) : state :=
-  mkS (head s) (cpc s) (updq s) (best s) (readers s) (writer s) (wl s) (next_id s) (rpc s) (wpc s) v (wch s) (wgot s) (log s).
+  mkS (head s) (pend s) (updq s) (best s) (readers s) (writer s) (wl s) (next_id s) (rpc s) (wpc s) v (wch s) (wgot s) (woff s) (log s).
 Definition set_wch (s : state) (v : nat -> option msg) : state :=
-  mkS (head s) (cpc s) (updq s) (best s) (readers s) (writer s) (wl s) (next_id s) (rpc s) (wpc s) (wid s) v (wgot s) (log s).
+  mkS (head s) (pend s) (updq s) (best s) (readers s) (writer s) (wl s) (next_id s) (rpc s) (wpc s) (wid s) v (wgot s) (woff s) (log s).
 Definition set_wgot (s : state) (v : nat -> option msg) : state :=
-  mkS (head s) (cpc s) (updq s) (best s) (readers s) (writer s) (wl s) (next_id s) (rpc s) (wpc s) (wid s) (wch s) v (log s).
+  mkS (head s) (pend s) (updq s) (best s) (readers s) (writer s) (wl s) (next_id s) (rpc s) (wpc s) (wid s) (wch s) v (woff s) (log s).
+Definition set_woff (s : state) (v : nat -> list msg) : state :=
+  mkS (head s) (pend s) (updq s) (best s) (readers s) (writer s) (wl s) (next_id s) (rpc s) (wpc s) (wid s) (wch s) (wgot s) v (log s).
 Definition set_log (s : state) (v : list msg) : state :=
-  mkS (head s) (cpc s) (updq s) (best s) (readers s) (writer s) (wl s) (next_id s) (rpc s) (wpc s) (wid s) (wch s) (wgot s) v.
+  mkS (head s) (pend s) (updq s) (best s) (readers s) (writer s) (wl s) (next_id s) (rpc s) (wpc s) (wid s) (wch s) (wgot s) (woff s) v.
 
 Definition fupd {A} (f : nat -> A) (i : nat) (v : A) : nat -> A :=
   fun j => if Nat.eqb j i then v else f j.
 
+Fixpoint remove_nth {A} (k : nat) (l : list A) : list A :=
+  match l, k with
+  | [], _ => []
+  | _ :: t, O => t
+  | x :: t, S k' => x :: remove_nth k' t
+  end.
+
 Inductive label :=
-| LSetHead (c : nat) (h : N)   (* connection c enters SetMasterHead(h) *)
-| LPublish (c : nat)           (* its send into masterHeadUpdatedCh completes; c.mu released *)
+| LSetHead (c : nat) (h : N)   (* a caller runs the critical section of connection c's SetMasterHead(h) *)
+| LPublish (k : nat)           (* the send of the k-th pending caller into masterHeadUpdatedCh completes *)
 | LTake                        (* Run: update := <-masterHeadUpdatedCh *)
 | LRLock (order : list nat)    (* Run: p.mu.RLock() in notifySubscribers; map order chosen *)
-| LSend                        (* Run: ch <- update.Head for the next channel *)
+| LSend                        (* Run: notifySubscriber(ch, update.Head) for the next channel *)
 | LRUnlock                     (* Run: loop finished, p.mu.RUnlock() *)
 | LTick                        (* Run: ticker fired, updateBest: p.mu.Lock() *)
-| LUpdRead                     (* Run: conns[k].MasterHead() *)
-| LUpdDone (nb : option nat)   (* Run: bestConn := choice; p.mu.Unlock() *)
+| LUpdDone (obs : list (bool * Z))
+                               (* Run: heads read, IsOK()/AverageRoundTrip() observed as [obs],
+                                  bestConn := selection; p.mu.Unlock() *)
 | LSubLock (w : nat)           (* waiter: p.mu.Lock() in subscribe *)
 | LSubBody (w : nat)           (* waiter: body of subscribe; p.mu.Unlock() *)
 | LRecv (w : nat)              (* waiter: head := <-ch and the comparison *)
-| LLeave (w : nat) (r : wres)  (* waiter: timeout (RTimeout) or ctx.Done (RCancel) branch *)
+| LLeave (w : nat) (r : wres)  (* waiter: timer (RTimeout) or ctx.Done (RCancel) branch *)
 | LUnsub (w : nat).            (* waiter: deferred unsubscribe, atomically *)
 
 Definition lock_free (s : state) : bool :=
@@ -135,8 +159,7 @@ Definition is_writer (s : state) (a : agent) : bool :=
   end.
 
 Definition mem (x : nat) (l : list nat) : bool := existsb (Nat.eqb x) l.
-(** [order] enumerates the channels of the wait list (each exactly once when the
-    registered waiters are distinct, which they are) *)
+(** [order] enumerates the channels of the wait list *)
 Definition is_order (order : list nat) (s : state) : bool :=
   let chans := map snd (wl s) in
   Nat.eqb (length order) (length chans) &&
@@ -145,35 +168,35 @@ Definition is_order (order : list nat) (s : state) : bool :=
 Definition same_best (s : state) (c : nat) : bool :=
   match best s with Some b => Nat.eqb b c | None => false end.
 
-Definition valid_choice (nconns : nat) (s : state) (nb : option nat) : bool :=
-  match nb, best s with
-  | None, None => true
-  | Some i, Some b => Nat.eqb i b || Nat.ltb i nconns
-  | Some i, None => Nat.ltb i nconns
-  | None, Some _ => false
+(** notifySubscriber: [if pending.Seqno > head.Seqno { head = pending }] *)
+Definition newer (old : option msg) (u : msg) : msg :=
+  match old with
+  | Some m => if (snd u <? snd m)%N then m else u
+  | None => u
   end.
 
+(** what updateBest sees: heads from the connections, alive / round-trip time from the network *)
+Definition mk_conns (nconns : nat) (heads : nat -> N) (obs : list (bool * Z)) : list conn :=
+  map (fun i => let o := nth i obs (false, 0%Z) in mkConn (fst o) (heads i) (snd o)) (seq 0 nconns).
+
 Section Step.
+  Variable strat : strategy.      (* p.strategy *)
   Variable nconns : nat.          (* len(p.conns), fixed after initialisation *)
   Variable tgt : nat -> N.        (* seqno waiter w waits for *)
 
   Definition step (s : state) (l : label) : option state :=
     match l with
     | LSetHead c h =>
-        match cpc s c with
-        | CIdle =>
-            if (head s c <? h)%N
-            then Some (set_cpc (set_head s (fupd (head s) c h)) (fupd (cpc s) c (CPub h)))
-            else Some s
-        | CPub _ => None                       (* c.mu is held by the previous call *)
-        end
-    | LPublish c =>
-        match cpc s c with
-        | CPub h =>
+        if (head s c <? h)%N
+        then Some (set_pend (set_head s (fupd (head s) c h)) (pend s ++ [(c, h)]))
+        else Some s
+    | LPublish k =>
+        match nth_error (pend s) k with
+        | Some m =>
             if Nat.ltb (length (updq s)) upd_cap
-            then Some (set_cpc (set_updq s (updq s ++ [(c, h)])) (fupd (cpc s) c CIdle))
-            else None                          (* buffer full: blocked holding c.mu *)
-        | CIdle => None
+            then Some (set_pend (set_updq s (updq s ++ [m])) (remove_nth k (pend s)))
+            else None                          (* buffer full: blocked, holding no lock *)
+        | None => None
         end
     | LTake =>
         match rpc s, updq s with
@@ -186,46 +209,36 @@ Section Step.
             let s1 := set_readers s (S (readers s)) in
             if same_best s (fst u)
             then if is_order order s
-                 then Some (set_log (set_rpc s1 (RNotify u order)) (log s ++ [u]))
+                 then Some (set_log (set_rpc s1 (RNotify u true order)) (log s ++ [u]))
                  else None
-            else Some (set_rpc s1 (RNotify u []))
+            else Some (set_rpc s1 (RNotify u false []))
         | _, _ => None
         end
     | LSend =>
         match rpc s with
-        | RNotify u (w :: rem) =>
-            match wch s w with
-            | None => Some (set_rpc (set_wch s (fupd (wch s) w (Some u))) (RNotify u rem))
-            | Some _ => None                   (* capacity-1 channel full: blocked holding RLock *)
-            end
+        | RNotify u mt (w :: rem) =>
+            let m := newer (wch s w) u in      (* never blocks *)
+            Some (set_rpc (set_woff (set_wch s (fupd (wch s) w (Some m)))
+                                    (fupd (woff s) w (woff s w ++ [u])))
+                          (RNotify u mt rem))
         | _ => None
         end
     | LRUnlock =>
         match rpc s with
-        | RNotify u [] => Some (set_rpc (set_readers s (pred (readers s))) RIdle)
+        | RNotify u mt [] => Some (set_rpc (set_readers s (pred (readers s))) RIdle)
         | _ => None
         end
     | LTick =>
         match rpc s with
-        | RIdle => if lock_free s then Some (set_rpc (set_writer s (Some ARun)) (RUpd 0)) else None
+        | RIdle => if lock_free s then Some (set_rpc (set_writer s (Some ARun)) RUpd) else None
         | _ => None
         end
-    | LUpdRead =>
+    | LUpdDone obs =>
         match rpc s with
-        | RUpd k =>
-            if is_writer s ARun && Nat.ltb k nconns
-            then match cpc s k with
-                 | CIdle => Some (set_rpc s (RUpd (S k)))
-                 | CPub _ => None              (* c.mu held by a publisher: blocked holding p.mu *)
-                 end
-            else None
-        | _ => None
-        end
-    | LUpdDone nb =>
-        match rpc s with
-        | RUpd k =>
-            if is_writer s ARun && Nat.leb nconns k && valid_choice nconns s nb
-            then Some (set_rpc (set_writer (set_best s nb) None) RIdle)
+        | RUpd =>
+            if is_writer s ARun
+            then Some (set_rpc (set_writer (set_best s (update_best strat (mk_conns nconns (head s) obs) (best s)))
+                                           None) RIdle)
             else None
         | _ => None
         end
@@ -244,18 +257,15 @@ Section Step.
               | None =>                        (* p.bestConn.MasterHead() on nil: panic, deferred Unlock *)
                   Some (set_wpc (set_writer s None) (fupd (wpc s) w WPanicked))
               | Some b =>
-                  match cpc s b with
-                  | CPub _ => None             (* bestConn.mu held by a publisher: blocked holding p.mu *)
-                  | CIdle =>
-                      let s1 := set_wpc (set_writer s None) (fupd (wpc s) w WWait) in
-                      if (tgt w <=? head s b)%N
-                      then Some (set_log (set_wid (set_wch s1 (fupd (wch s) w (Some (b, head s b))))
-                                                  (fupd (wid s) w 0%N))
-                                         (log s ++ [(b, head s b)]))
-                      else let id := (next_id s + 1)%N in
-                           Some (set_wid (set_wl (set_next_id s1 id) (wl s ++ [(id, w)]))
-                                         (fupd (wid s) w id))
-                  end
+                  let s1 := set_wpc (set_writer s None) (fupd (wpc s) w WWait) in
+                  if (tgt w <=? head s b)%N
+                  then Some (set_log (set_woff (set_wid (set_wch s1 (fupd (wch s) w (Some (b, head s b))))
+                                                        (fupd (wid s) w 0%N))
+                                               (fupd (woff s) w (woff s w ++ [(b, head s b)])))
+                                     (log s ++ [(b, head s b)]))
+                  else let id := (next_id s + 1)%N in
+                       Some (set_wid (set_wl (set_next_id s1 id) (wl s ++ [(id, w)]))
+                                     (fupd (wid s) w id))
               end
             else None
         | _ => None
@@ -296,26 +306,36 @@ End Step.
 
 (** a freshly built pool: heads and the current choice are arbitrary *)
 Definition init_state (heads : nat -> N) (b : option nat) : state :=
-  mkS heads (fun _ => CIdle) [] b 0 None [] 0%N RIdle
-      (fun _ => WNew) (fun _ => 0%N) (fun _ => None) (fun _ => None) [].
+  mkS heads [] [] b 0 None [] 0%N RIdle
+      (fun _ => WNew) (fun _ => 0%N) (fun _ => None) (fun _ => None) (fun _ => []) [].
 
 (** ---- vocabulary of the theorems ---- *)
 
 (** the holder of the pool lock (writer, or the reader = Run in notifySubscribers)
     has an enabled step *)
-Definition holder_can_step (nconns : nat) (tgt : nat -> N) (s : state) : Prop :=
+Definition holder_can_step (strat : strategy) (nconns : nat) (tgt : nat -> N) (s : state) : Prop :=
   match writer s with
-  | Some (AW w) => step nconns tgt s (LSubBody w) <> None
-  | Some ARun => step nconns tgt s LUpdRead <> None \/
-                 exists nb, step nconns tgt s (LUpdDone nb) <> None
-  | None => readers s = 0 \/ step nconns tgt s LSend <> None \/ step nconns tgt s LRUnlock <> None
+  | Some (AW w) => step strat nconns tgt s (LSubBody w) <> None
+  | Some ARun => forall obs, step strat nconns tgt s (LUpdDone obs) <> None
+  | None => readers s = 0 \/ step strat nconns tgt s LSend <> None \/ step strat nconns tgt s LRUnlock <> None
   end.
 
-(** Run holds RLock and its next send is into a full channel *)
-Definition notify_blocked (s : state) : Prop :=
-  exists u w rem m, rpc s = RNotify u (w :: rem) /\ wch s w = Some m.
+(** the steps by which the current holder of the pool lock finishes its critical
+    section (empty when the lock is free) *)
+Definition release (s : state) : list label :=
+  match writer s with
+  | Some (AW w) => [LSubBody w]
+  | Some ARun => [LUpdDone []]
+  | None => match rpc s with
+            | RNotify _ _ rem => repeat LSend (length rem) ++ [LRUnlock]
+            | _ => []
+            end
+  end.
 
-(** the writer of p.mu waits for the lock of a connection that is publishing *)
-Definition connlock_blocked (s : state) : Prop :=
-  exists c h, cpc s c = CPub h /\
-    ((rpc s = RUpd c) \/ (exists w, wpc s w = WSubL /\ best s = Some c)).
+(** labels that are moves of the pool's own goroutines finishing what they started
+    (no new head, no new caller, no timeout) *)
+Definition internal (l : label) : bool :=
+  match l with
+  | LSend | LRUnlock | LUpdDone _ | LSubBody _ | LRLock _ | LTake => true
+  | _ => false
+  end.
